@@ -65,6 +65,8 @@ unsafe fn retain<T>(store: &[UnsafeCell<Slot<T>>], id: usize) {
     if old_rc > (u32::MAX >> 1) {
         std::process::abort(); // prevent overflow
     }
+    #[cfg(oxidd_verif)]
+    oxidd_core::verif::emit(oxidd_core::verif::site::TERM_RETAIN, &[id]);
 }
 
 fn hash<T: Hash>(terminal: &T) -> u64 {
@@ -145,6 +147,8 @@ where
         // `<= self.store.len()`. Furthermore, we have shared access to the
         // referenced `Slot` and the slot is a `node`.
         let item = unsafe { &(*self.store.get_unchecked(id).get()).node };
+        #[cfg(oxidd_verif)]
+        oxidd_core::verif::emit(oxidd_core::verif::site::TERM_RELEASE, &[id]);
         // Synchronizes-with the load in `Self::gc()`
         let _old_rc = item.rc.fetch_sub(1, Release);
         debug_assert!(
@@ -169,12 +173,22 @@ where
                 // `state.unique_table.find_or_find_insert_slot()` and there
                 // were no modifications of the table in between.
                 let id = *unsafe { state.unique_table.get_at_slot_unchecked(slot) };
+                #[cfg(oxidd_verif)]
+                oxidd_core::verif::emit(
+                    oxidd_core::verif::site::TERM_GET_FOUND,
+                    &[id as usize, hash as usize],
+                );
                 unsafe { self.retain(id as usize) };
                 id
             }
             Err(table_slot) => {
                 let id = state.next_free;
                 if id == self.store.len() as u32 {
+                    #[cfg(oxidd_verif)]
+                    oxidd_core::verif::emit(
+                        oxidd_core::verif::site::TERM_GET_OOM,
+                        &[hash as usize],
+                    );
                     return Err(OutOfMemory);
                 }
                 // SAFETY: holds by invariant of `state.next_free`
@@ -192,6 +206,11 @@ where
                         .unique_table
                         .insert_in_slot_unchecked(hash, table_slot, id)
                 };
+                #[cfg(oxidd_verif)]
+                oxidd_core::verif::emit(
+                    oxidd_core::verif::site::TERM_GET_NEW,
+                    &[id as usize, hash as usize],
+                );
                 id
             }
         };
@@ -223,6 +242,8 @@ where
         // panic (which should not happen) we would potentially loose a few
         // slots, but this is not a SAFETY issue.
         let mut next_free = state.next_free;
+        #[cfg(oxidd_verif)]
+        oxidd_core::verif::emit(oxidd_core::verif::site::TERM_GC_BEGIN, &[]);
         state.unique_table.retain(
             |&mut id| {
                 // SAFETY: The IDs stored in the table are valid, hence
@@ -235,6 +256,11 @@ where
                 node.rc.load(Acquire) != 1
             },
             |id| {
+                #[cfg(oxidd_verif)]
+                oxidd_core::verif::emit(
+                    oxidd_core::verif::site::TERM_GC_REMOVE,
+                    &[id as usize],
+                );
                 // SAFETY: as above
                 let slot = unsafe { &mut *self.store.get_unchecked(id as usize).get() };
                 unsafe { ManuallyDrop::drop(&mut slot.node) };
@@ -244,6 +270,11 @@ where
             },
         );
         state.next_free = next_free;
+        #[cfg(oxidd_verif)]
+        oxidd_core::verif::emit(
+            oxidd_core::verif::site::TERM_GC_END,
+            &[collected as usize],
+        );
         collected
     }
 }
@@ -293,6 +324,12 @@ impl<'id, T, N: NodeBase, ET: Tag> Iterator for DynamicTerminalIterator<'_, 'id,
         while !unsafe { unique_table.is_slot_occupied_unchecked(self.next_slot) } {
             self.next_slot += 1;
         }
+        #[cfg(oxidd_verif)]
+        oxidd_core::verif::emit(
+            oxidd_core::verif::site::TERM_ITER,
+            // SAFETY: `self.next_slot` is occupied.
+            &[*unsafe { unique_table.get_at_slot_unchecked(self.next_slot) } as usize],
+        );
         // SAFETY: `self.next_slot` is occupied.
         let id = *unsafe { unique_table.get_at_slot_unchecked(self.next_slot) };
         self.next_slot += 1;
